@@ -237,14 +237,17 @@ LEVEL_TEXT["C07"] = {
     "technique": "Lean 4 proof (simulation stream parser / slice parser: open + every query, all legal schedules, all histories) + differential correspondence of histories against model and ElfBytes",
 }
 LEVEL_TEXT["C08"] = {
-    "text": "Theorems over the I/O/allocation trace of the model, for every contents, history and schedule: every buffer allocation event is "
-            "<= the stream length (the end > stream_len guard precedes vec![0; len]); oversized requests are BadOffset before any I/O; a cached "
-            "key costs no I/O; the reader layer and section_headers_with_strtab (shdrs[0], expect) never panic. Laziness (each read is a range "
-            "the headers designate; open reads only ident, header tail, shdr[0] and the two tables) is compared as a coalesced (offset, "
-            "bytes) trace between model and code and checked by an oracle. Measured, not proved: std's Vec/HashMap growth policy - the "
-            "size-recording global allocator asserts max single allocation <= 8*len + 8 KiB.",
-    "note": COMMON_NOTE + " Partial: allocator growth policy is measured.",
-    "technique": "Lean 4 proof over an effect trace + recording reader / size-recording allocator correspondence",
+    "text": "Theorems for every contents, parser state, history and reader schedule: open_stream never panics (open_never_panics) and no "
+            "query panics (queries_never_panic: the expect in get_bytes always follows successful loads of the same keys, shdrs[0] is reached "
+            "only with a non-empty Vec, all arithmetic is checked); every read-buffer allocation event is <= the stream length after open "
+            "and after any history of queries (allocs_bounded_after_open, allocs_bounded_history; the end > stream_len guard precedes "
+            "vec![0; len]); oversized requests are BadOffset before any I/O; a cached key costs no I/O; a load_bytes(s,e) leaves the stream "
+            "position untouched or inside [s,e] (load_reads_only_its_range). Laziness at query level (each read is a range the headers "
+            "designate; open reads only ident, header tail, shdr[0] and the two tables) is compared as a coalesced (offset, bytes) trace "
+            "between model and code and checked by an oracle. Measured, not proved: std's Vec/HashMap growth policy and the header Vecs - "
+            "the size-recording global allocator asserts max single allocation <= 8*len + 8 KiB.",
+    "note": COMMON_NOTE + " Partial: allocator growth policy and the per-query list of designated ranges are measured/compared, not proved.",
+    "technique": "Lean 4 proof (totality of open and every query; allocation bound as an invariant of every history; extent of a load) + recording reader / size-recording allocator correspondence",
 }
 LEVEL_TEXT["C17"] = {
     "text": "For every fault schedule: a failing seek or a read error / premature EOF makes load_bytes / read_exact return an error and cache "
